@@ -362,9 +362,6 @@ func protoMode(args []string) int {
 		mal := (c/2)%2 == 1
 		shared := (c/4)%2 == 1
 		base := "co"
-		if thorough && c%16 == 15 {
-			base = "rsa"
-		}
 		bs, br := newBase(base, r)
 		var snd, rcv ot.OT
 		impl := "cot"
@@ -382,6 +379,27 @@ func protoMode(args []string) int {
 		otPairCase(o, impl+"_over_"+base, i, rp, fmt.Sprintf("impl=%s base=%s mal=%v shared=%v", impl, base, mal, shared),
 			transports[r.Intn(2)], snd, rcv, r, sizes, rot, 120*time.Second)
 		o.Count(fmt.Sprintf("proto_%s_mal_%v", impl, mal))
+	}
+	// --- probe (recorded, not judged): COT over an RSA base OT.  COT.InitReceiver
+	// initialises its base OT as *receiver* while NewIKNPReceiver then calls
+	// base.Send; Chou-Orlandi tolerates the inverted role, RSA does not (the
+	// private key only exists after InitSender).  The property lists COT/ROT as
+	// implementations, not every base/extension pairing, so this is evidence
+	// only.
+	if thorough && cf.Only < 0 {
+		r := rng.Fork()
+		bs, br := newBase("rsa", r)
+		snd, rcv := ot.NewCOT(bs, r.Fork(), false, false), ot.NewCOT(br, r.Fork(), false, false)
+		l := newLink("otpipe")
+		es, er, to := runPair(l, func() error { return snd.InitSender(l.s) }, func() error { return rcv.InitReceiver(l.r) },
+			60*time.Second)
+		l.close()
+		if es == nil && er == nil && !to {
+			o.Count("probe_cot_over_rsa_base_init_ok")
+		} else {
+			o.Count("probe_cot_over_rsa_base_init_fails")
+			o.Meta["probe_cot_over_rsa_base"] = fmt.Sprintf("sender: %s; receiver: %s; timeout: %v", errStr(es), errStr(er), to)
+		}
 	}
 	return 0
 }
